@@ -436,7 +436,7 @@ func main() {
 			if th {
 				return 8000
 			}
-			return 600
+			return 400
 		},
 		Fixed: [][]string{
 			eleven, // DESIGN §7 #6: shipped configuration, eleven pours of 99 ZCN in one window
